@@ -41,6 +41,8 @@ DOMAIN_VALUES = {
 FUNC_DOMAIN = {"log": "pos", "log10": "pos", "log2": "pos", "sqrt": "pos", "cbrt": "pos", "log1p": "pos", "acosh": "gt1",
                "asin": "unit", "acos": "unit", "atanh": "unit", "tan": "unit", "ceil": "frac", "floor": "frac",
                "round": "frac", "trunc": "frac", "rint": "frac", "nearbyint": "frac"}
+# the active FixedArray types of the driver: from rank 3 on FixedArray::advance_index wraps a dimension other than the last
+FIXED_DIMS = {"f4": [4], "f23": [2, 3], "f234": [2, 3, 4], "f2232": [2, 2, 3, 2]}
 EXT = [1, 2, 3, 4, 5, 9]          # {1,2,3,W-1,W,W+1,2W+1} for W in {2,4}
 EXT_W = [5, 6, 6, 4, 4, 2]
 MAXCELLS = 260
@@ -139,10 +141,12 @@ class Gen:
 
     def fixed(self, which, style="any"):
         h = self.h()
-        n = 4 if which == "f4" else 6
+        d = FIXED_DIMS[which]
+        n = 1
+        for x in d:
+            n *= x
         self.pre.append("%s %d : %s" % (which, h, " ".join(map(str, self.vals(n, style)))))
-        self.info[h] = dict(rank=1 if which == "f4" else 2, dims=[4] if which == "f4" else [2, 3], active=True, root=h,
-                            kind=which, views=["fixed"])
+        self.info[h] = dict(rank=len(d), dims=list(d), active=True, root=h, kind=which, views=["fixed"])
         return h
 
     def derive(self, src, op, dims, tag):
@@ -805,9 +809,15 @@ class Gen:
 
     def s_fixed(self):
         r = self.r
-        which = self.pick("which", ["f4", "f23"]); d = [4] if which == "f4" else [2, 3]
+        which = self.pick("which", ["f4", "f23", "f234", "f234", "f2232"]); d = list(FIXED_DIMS[which])
         k = self.pick("k", ["fxcopy", "fxbin", "fxsrc", "fxff", "fxbcp", "fxbca", "fxcmp", "fxred"])
         op = self.pick("op", ["add", "sub", "mul"])
+        if k == "fxred" and len(d) > 2 and self.force.get("f", "") in ("", "product"):
+            # 24 factors: keep the product inside the exact regime
+            f = self.fixed(which, "prod"); s = self.scalar(0)
+            self.emit("fxred %s %d %d" % (self.pick("f", ["sum", "product", "maxval", "mean", "minval"]), s, f), "fixed-reduce", d, s)
+            self.targets.add(s)
+            return
         if k == "fxsrc":
             t = self.target(d); f = self.fixed(which)
             self.emit("fxsrc %s %d %d %d" % (op, t, f, self.operand(d)), "fixed-source", d, t)
@@ -959,7 +969,7 @@ def sweep_cases(rng, tier="quick"):
         for op in OPS3:
             D("element", k="elc", op=op, rank=rank)
     # FixedArray kinds x both fixed types (x operator / reduction function where there is one)
-    for which in ("f4", "f23"):
+    for which in ("f4", "f23", "f234", "f2232"):
         for k in ("fxcopy", "fxbcp", "fxbca"):
             D("fixed", extents=None, which=which, k=k)
         for k in ("fxbin", "fxsrc", "fxff", "fxcmp"):
@@ -1051,7 +1061,7 @@ def judge(ops, il, W, rc=0, err=""):
         if l.startswith("EXC ") or l == "bad-op":
             v.oracle.append((i, "op rejected: %s" % l[:120]))
             continue
-        if w[0] in ("av", "pv", "as", "f4", "f23", "vw", "vT", "vperm", "vdiag", "vsoft", "vlink", "geom") and (l.startswith("ok ") or l.startswith("G ")):
+        if w[0] in ("av", "pv", "as", "f4", "f23", "f234", "f2232", "vw", "vT", "vperm", "vdiag", "vsoft", "vlink", "geom") and (l.startswith("ok ") or l.startswith("G ")):
             g = ac.Geom(l.split(" ", 1)[1])
             geoms[g.h] = g
             if g.badgeom:
@@ -1319,7 +1329,7 @@ def run(ctx, replay):
     ctx.notes["builds"] = [l for l, _ in variants] + (["sse2+ADEPT_INITIAL_STACK_LENGTH=2"] if small else [])
     ctx.cov["rule"] = ("cases = 1-4 statements over fresh pools: ranks 1-4, extents from {1,2,3,4,5,9}, operands and targets that are roots "
                        "(row/column-major) or compositions of stride/reversed/transposed/permuted/sliced/diag/soft_link/link views, active and "
-                       "passive operands, targets Array/view/FixedArray/adouble; every statement kind of the driver menu; non-trivial = every "
+                       "passive operands, targets Array/view/FixedArray (ranks 1-4)/adouble; every statement kind of the driver menu; non-trivial = every "
                        "executed statement; distinct = different (build, statement op, pool prefix). Each statement is compared with the model "
                        "(tape and memory image, exactly) when every number is a small dyadic, and always judged by the dual-number oracle. "
                        "In EVERY run, before the random cases, the directed cases of sweep_cases(): one statement each, pairwise different "
